@@ -556,6 +556,9 @@ Definition replace_rp (from to : rpos) (sl : slice) : res node :=
   if rp_depth from <? sl_open_start sl then Err ErrReplace
   else if negb (Z.eqb (Z.of_nat (rp_depth from) - Z.of_nat (sl_open_start sl))
                       (Z.of_nat (rp_depth to) - Z.of_nat (sl_open_end sl))) then Err ErrReplace
+  else if rp_pos to <? rp_pos from then Err ErrReplace     (* a range whose end lies before its start *)
+  else if (fsize (sl_content sl) =? 0) && ((0 <? sl_open_start sl) || (0 <? sl_open_end sl)) then Err ErrReplace
+       (* an empty slice has no nodes to be open into *)
   else replace_outer (S (rp_depth from)) from to sl 0.
 
 (* Node.replace(from, to, slice) *)
